@@ -5,7 +5,7 @@ from __future__ import annotations
 from typing import Any
 
 from .. import dense, gen, patterns
-from ..core import LOG, enable
+from ..core import LOG, enable, guarded, quiet
 from ..workload import Ctx, drive, generate
 
 
@@ -17,12 +17,29 @@ def _fired() -> int:
 
 def reduce_all(e: Any, what: str) -> None:
     before = _fired()
+    m0 = None
+    if dense.size_of(e.in_structure()) * dense.size_of(e.out_structure()) <= 400:
+        try:
+            with quiet():
+                m0 = dense.matrix(e)
+        except Exception:  # noqa: BLE001
+            m0 = None
     try:
         r = e.reduce()
     except Exception:  # noqa: BLE001 - recorded by the monitor as a violation; keep going
         LOG.count('C01.driver', 'reduce-raised')
         return
     nontrivial = _fired() > before
+    if m0 is not None:
+        # reduce() must leave its operand alone: the unreduced expression still denotes the same map afterwards
+        def unchanged() -> None:
+            m1 = dense.matrix(e)
+            LOG.evaluated('C01.operand-unchanged')
+            ok, err = dense.close(m0, m1, dense.tol_for(e))
+            if not ok:
+                LOG.violation('C01', 'C01.operand-unchanged', 'reduce/modifies-its-operand',
+                              f'the unreduced expression denotes another map after reduce() (rel err {err:.3g})', expr=dense.describe(e))
+        guarded('C01.operand-unchanged', unchanged)
     LOG.case_key(f'{what}:{dense.skeleton(e)}', nontrivial)
     LOG.sample({'expr': dense.describe(e), 'reduced': dense.describe(r), 'rewrites': _fired() - before})
     try:
@@ -57,6 +74,8 @@ def case_random(rng: Any, ctx: Ctx, index: int) -> None:
 def case_pattern(rng: Any, ctx: Ctx, index: int) -> None:
     gen.begin_case(rng)
     names = sorted(patterns.PATTERNS)
+    # round-robin slots: the four block-operator pairs first, then every other pattern family
+    rr = [('blocks', f) for f in range(4)] + [(n, None) for n in names if n != 'blocks']
     k = 1 + int(rng.integers(3) == 0) + int(rng.integers(6) == 0)
     maxctx = 14 if ctx.thorough else 6
 
@@ -64,9 +83,10 @@ def case_pattern(rng: Any, ctx: Ctx, index: int) -> None:
         segs, tags = [], []
         for j in range(k):
             # the first pattern is chosen round-robin so that every rule is reached early in every shard
-            name = names[(index // max(1, ctx.nshards)) % len(names)] if j == 0 else names[int(rng.integers(len(names)))]
-            if name == 'blocks' and j == 0:
-                tag, seg = patterns.p_blocks(rng, (index // max(1, ctx.nshards)) // len(names))
+            slot = (index // max(1, ctx.nshards)) % len(rr)
+            name, form = rr[slot] if j == 0 else (names[int(rng.integers(len(names)))], None)
+            if name == 'blocks' and form is not None:
+                tag, seg = patterns.p_blocks(rng, form)
             else:
                 tag, seg = patterns.PATTERNS[name](rng)
             segs.append(seg)
